@@ -7,6 +7,8 @@
 (*   status, exc, cr_n, cr, cl_n, cl, r_etag_n, r_etag, r_lm_n, r_lm, body, modified]            *)
 (* Lines with op "file" (FileValidators.tla, clauses "File/..") are requests against real files,   *)
 (* lines with op "etag" (clauses "EtagApi/..") exercise add_etag / set_etag / get_etag / freeze.   *)
+(* Lines with op "rmc" / "rfile" / "rw" are recorded from the repository's own tests (plugin         *)
+(* harness/pytest_conditional_plugin.py), same clauses, keys prefixed RepoTests/ by the harness.      *)
 (* Lines with op "rc" combine Range with If-None-Match / If-Modified-Since / If-Match: judged by *)
 (* VerdictRC, clauses prefixed "RangeCond/".                                                      *)
 (* The judge parses the header texts itself (Conditional.tla) and names the violated clause:     *)
@@ -29,7 +31,13 @@ ObsOf(ln) == [status |-> ln.status, exc |-> ln.exc, cr_n |-> ln.cr_n, cr |-> ln.
 
 JVerdict(ln) ==
   LET req == ReqOf(ln) rep == RepOf(ln) IN
-  IF ln.op = "file" THEN
+  IF ln.op = "rw" THEN VerdictRW(ln)
+  ELSE IF ln.op = "rfile" THEN (IF ~FileInDomain(ln) THEN "OutOfDomain" ELSE VerdictFileD(ln, RD(ln)))
+  ELSE IF ln.op = "rmc" THEN
+     (IF Len(ln.lm) # 7 THEN "OutOfDomain"
+      ELSE IF InDomainRC(req, rep) THEN VerdictRCD(req, rep, ObsOf(ln), RD(ln))
+      ELSE IF InDomain(req, rep) THEN VerdictD(req, rep, ObsOf(ln), RD(ln)) ELSE "OutOfDomain")
+  ELSE IF ln.op = "file" THEN
      (IF ~FileInDomain(ln) THEN "OutOfDomain"
       ELSE LET v == VerdictFile(ln) IN IF v = "ok" THEN "ok" ELSE "File/" \o v)
   ELSE IF ln.op = "etag" THEN
@@ -43,7 +51,8 @@ JVerdict(ln) ==
 
 Drift(ln) ==
   LET req == ReqOf(ln) rep == RepOf(ln) IN
-  IF ln.op = "file" THEN (IF FileInDomain(ln) THEN FileDrift(ln) ELSE "")
+  IF ln.op = "rw" \/ ln.op = "rmc" THEN ""
+  ELSE IF ln.op = "file" \/ ln.op = "rfile" THEN (IF FileInDomain(ln) THEN FileDrift(ln) ELSE "")
   ELSE IF ln.op = "etag" THEN ""
   ELSE IF ln.op = "rc" THEN
      (IF InDomainRC(req, rep) /\ ln.method \in {"GET", "HEAD"} /\ May412(req, rep) /\ ln.status \in {200, 206, 416}
@@ -79,7 +88,7 @@ Next == /\ l <= Len(Lines)
                d == IF v = "ok" THEN Drift(ln) ELSE "" IN
            /\ IF v = "ok" THEN TRUE
               ELSE PrintT(ToJson([reject |-> 1, t |-> ln.t, i |-> ln.i, clause |-> v,
-                                  info |-> IF v = "OutOfDomain" \/ ln.op = "etag" THEN [range |-> "-"] ELSE Info(ln)]))
+                                  info |-> IF v = "OutOfDomain" \/ ln.op = "etag" \/ ln.op = "rw" THEN [range |-> "-"] ELSE Info(ln)]))
            /\ IF d = "" THEN TRUE
               ELSE PrintT(ToJson([drift |-> 1, t |-> ln.t, what |-> d]))
         /\ l' = l + 1
